@@ -1,5 +1,6 @@
 import PyPhysim.Proofs.C18OccMulti
 import PyPhysim.Proofs.C18Reshape
+import PyPhysim.Proofs.C18Cell
 import PyPhysim.Proofs.C18Ls
 import PyPhysim.Proofs.C18Prime
 import PyPhysim.Proofs.C18Seq
@@ -390,6 +391,42 @@ theorem ls_exact_full_rank {nr nt np : ℕ} (inv : Mat ℂ nt nt → Mat ℂ nt 
   apply hcontract
   rw [of_matMul, of_conjT]
   exact gram_isUnit_of_full_row_rank (Matrix.of S) hrank
+
+/-! ## Shared objects, rejected calls, scale (robustness classes R3 / R4 / R6 / R7) -/
+
+/-- R3/R7: after **any** history of user constructions on one shared root
+    object the root object is what it was before the first construction. -/
+theorem cell_root_unchanged (norm : List ℂ → ℂ) (c : Cell ℂ) (sps : List (UeSpec ℂ)) :
+    (Cell.run norm c sps).1.root = c.root :=
+  run_root norm c sps
+
+/-- R3/R7: …the users built earlier are unchanged (they form a prefix) and
+    every user equals the one a construction on the untouched root yields,
+    whatever was built before it (shift 0, normalisation on/off mixed, …). -/
+theorem cell_users_fresh (norm : List ℂ → ℂ) (c : Cell ℂ) (sps : List (UeSpec ℂ)) :
+    (Cell.run norm c sps).1.users = c.users ++ sps.filterMap (freshUser norm c.root) :=
+  run_users norm c sps
+
+/-- R4: a rejected construction (`AssertionError` for a shift `≥ D`) leaves the
+    cell exactly as it was; the statuses of a history are those of the single
+    constructions on the untouched root. -/
+theorem cell_rejected_noop (norm : List ℂ → ℂ) (c : Cell ℂ) (sp : UeSpec ℂ) (e : PyErr)
+    (h : buildUe norm c.root sp = .error e) : c.addUser norm sp = (c, some e) := by
+  unfold Cell.addUser
+  rw [h]
+
+/-- R4 (histories) -/
+theorem cell_statuses (norm : List ℂ → ℂ) (c : Cell ℂ) (sps : List (UeSpec ℂ)) :
+    (Cell.run norm c sps).2 = sps.map (rejection norm c.root) :=
+  run_status norm c sps
+
+/-- R6: the estimator is homogeneous — scaling the whole observation by any
+    complex factor (1e-12 … 1e12) scales the estimate by the same factor; no
+    absolute threshold is involved. -/
+theorem estimate_homogeneous (r Y E : List ℂ) (g : ℂ) (nrm : Bool) (m K : ℕ) (hm : 0 < m)
+    (hN : 0 < r.length) (hY : Y.length = r.length) (h : estimate1 r nrm m Y K = .ok E) :
+    estimate1 r nrm m (Y.map (fun v => g * v)) K = .ok (E.map (fun v => g * v)) :=
+  estimate1_smul r Y E g nrm m K hm hN hY h
 
 /-! ## Non-vacuity -/
 
